@@ -306,6 +306,8 @@ class Gen:
         self.args = [argument(Tensor(F32, (2,))) for _ in range(nargs)]
         self.cond = argument(Tensor(np.bool_, ()))
         self.leak = []
+        # one initializer-backed weight that any scope may read (bodies of sibling control-flow nodes share it)
+        self.shared_init = initializer(np.array([rng.randint(1, 5), rng.randint(1, 5)], F32)) if rng.random() < 0.6 else None
         pool = list(self.args)
         for _ in range(rng.randint(*self.size)):
             v = self.expr(pool, 0)
@@ -335,6 +337,8 @@ class Gen:
         rng, op = self.rng, self.op
         k = rng.random()
         a, b = rng.choice(pool), rng.choice(pool)
+        if k < 0.14 and getattr(self, "shared_init", None) is not None and depth > 0:
+            self.count("Add(shared initializer)"); return op.add(a, self.shared_init)
         if k < 0.16:
             self.count("Add"); return op.add(a, b)
         if k < 0.24:
